@@ -306,6 +306,71 @@ Fixpoint fold_from (fuel : nat) (r : re) (p : option char) (s : list char) (i : 
 Definition fold_spans (r : sre) (s : list char) : option (list (nat * nat)) :=
   fold_from (length s) (desugar false r) None s O.
 
+(** sre-expand-reps (regexp.scm:771-785, with fixes/C20-zero-repeat.patch): the shape of the sequence a
+    repetition (= n x) / (>= n x) / the bounded "**" form is rewritten to before compilation.  [true] = the copy keeps its
+    submatches (only the last one does), [false] = submatches stripped (strip-submatches). *)
+Inductive rep_item : Type := RCopy (subs : bool) | ROptc (subs : bool) | RStarc.
+
+Definition expand_reps (from : nat) (to : option nat) : list rep_item :=
+  match to with
+  | None => repeat (RCopy false) from ++ [RStarc]
+  | Some t =>
+      if (from =? t)%nat then
+        match from with O => [] | S k => repeat (RCopy false) k ++ [RCopy true] end
+      else repeat (RCopy false) from ++ repeat (ROptc false) (t - from - 1) ++ [ROptc true]
+  end.
+
+(** the language of such a sequence over a body language [P] *)
+Definition item_lang (P : lang) (it : rep_item) : lang :=
+  match it with
+  | RCopy _ => P
+  | ROptc _ => fun p s n => s = [] \/ P p s n
+  | RStarc => LStar P
+  end.
+
+Fixpoint items_lang (P : lang) (l : list rep_item) : lang :=
+  fun p s n =>
+  match l with
+  | [] => s = []
+  | it :: l' => exists s1 s2, s = s1 ++ s2 /\ item_lang P it p s1 (firstc s2 n) /\ items_lang P l' (lastc p s1) s2 n
+  end.
+
+(** regexp-match>=? (regexp.scm:262-292, with fixes/C20-nongreedy-leftmost.patch): the preference between the
+    match vectors of two searchers that meet in one NFA state (or at the accept state).  A vector is
+    start0 end0 start1 end1 ... ([None] = #f, not set); [ng] = rx-non-greedy-indexes (positions of the end
+    slots of non-greedy submatches); [i] = position of the current start slot.  Submatch-list slots are not
+    modelled.  [true] = keep m1. *)
+Definition oeqb (a b : option nat) : bool :=
+  match a, b with
+  | None, None => true
+  | Some x, Some y => (x =? y)%nat
+  | _, _ => false
+  end.
+
+Fixpoint match_ge (ng : list nat) (i : nat) (m1 m2 : list (option nat)) : bool :=
+  match m1, m2 with
+  | s1 :: e1 :: r1, s2 :: e2 :: r2 =>
+      if oeqb s1 s2 && oeqb e1 e2 then match_ge ng (i + 2) r1 r2
+      else negb
+        match s2 with
+        | None => false
+        | Some b2 =>
+            match s1 with
+            | None => true
+            | Some b1 =>
+                (b2 <? b1)%nat
+                || match e1 with Some x1 => (x1 <? b1)%nat | None => false end
+                || ((b2 =? b1)%nat &&
+                    (if existsb (Nat.eqb (i + 1)) ng then negb else (fun b : bool => b))
+                      match e2 with
+                      | None => true
+                      | Some x2 => match e1 with Some x1 => (x1 <? x2)%nat | None => false end
+                      end)
+            end
+        end
+  | _, _ => true
+  end.
+
 (** no anchor at all: the language does not depend on the surrounding characters *)
 Fixpoint anchor_free (r : sre) : bool :=
   match r with
